@@ -1,8 +1,96 @@
 /-
-C07 — property theorems (stub; see DESIGN.md §6).
+C07 — Hyper-parameters are invariant under learning (match tracking is transient).
+
+`ArtModel/Restore.lean` threads the module's vigilance slot through the step the
+way the code does (save, mutate while tracking, restore on every exit).  The
+theorems say: whatever the search did to the slot, after the step it holds the
+configured value again — on all four exits — hence over any history; and the
+state/labels produced are those of the pure step judged against the configured
+value, so consecutive samples are always judged against the configured values.
 -/
-import ArtModel.Basic
+import ArtProofs.Fit
+import ArtModel.Restore
 
 namespace Art.C07
+
+variable {X Wt α μ θ : Type} [LinearOrder α]
+
+/-- One step restores the slot, whichever exit is taken. -/
+theorem step_params_restored (K : Kernel X Wt α μ) (cfg : SearchCfg μ θ) (veto : Nat → Bool)
+    (m : Module θ Wt) (x : X) : (stepFitP K cfg veto m x).1.rho = m.rho := by
+  unfold stepFitP
+  split
+  · rfl
+  · simp only
+    split <;> rfl
+
+/-- … although the slot really was overwritten while tracking: the value at the
+end of the loop is the search's final threshold. -/
+theorem step_slot_was_mutated (K : Kernel X Wt α μ) (cfg : SearchCfg μ θ) (veto : Nat → Bool)
+    (m : Module θ Wt) (x : X) (h : m.st.W.isEmpty = false) :
+    (stepFitP K cfg veto m x).2.2.2 = (stepSearch K cfg m.rho veto m.st.W x).th := by
+  unfold stepFitP
+  rw [if_neg (by simp [h])]
+  simp only
+  cases (stepSearch K cfg m.rho veto m.st.W x).winner <;> rfl
+
+/-- The step with the threaded slot computes exactly the pure step judged
+against the configured threshold. -/
+theorem step_eq_pure (K : Kernel X Wt α μ) (cfg : SearchCfg μ θ) (veto : Nat → Bool)
+    (m : Module θ Wt) (x : X) :
+    ((stepFitP K cfg veto m x).1.st, (stepFitP K cfg veto m x).2.1) =
+      stepFit K cfg m.rho veto m.st x := by
+  unfold stepFitP stepFit
+  split
+  · rfl
+  · simp only
+    split <;> rename_i h <;> simp [h]
+
+/-- Over any stream the slot never changes and the training state is the pure
+fold at the configured threshold. -/
+theorem history_params_invariant (K : Kernel X Wt α μ) (cfg : SearchCfg μ θ)
+    (veto : ArtState Wt → X → Nat → Bool) (m : Module θ Wt) (xs : List X) :
+    (partialFitP K cfg veto m xs).rho = m.rho ∧
+    (partialFitP K cfg veto m xs).st = partialFit K cfg m.rho veto m.st xs := by
+  unfold partialFitP partialFit
+  induction xs generalizing m with
+  | nil => exact ⟨rfl, rfl⟩
+  | cons x xs ih =>
+    simp only [List.foldl_cons]
+    have h1 : (trainStepP K cfg veto m x).rho = m.rho := by
+      simp [trainStepP, step_params_restored]
+    have h2 : (trainStepP K cfg veto m x).st = trainStep K cfg m.rho veto m.st x := by
+      have := step_eq_pure K cfg (veto m.st x) m x
+      simp only [trainStepP, trainStep]
+      rw [← this]
+    obtain ⟨i1, i2⟩ := ih (trainStepP K cfg veto m x)
+    rw [h1] at i1 i2
+    rw [h2] at i2
+    exact ⟨i1, i2⟩
+
+/-- The first category visited for any sample is judged against the configured value. -/
+theorem first_visit_sees_configured (cfg : SearchCfg μ θ) (M : Nat → μ) (veto : Nat → Bool)
+    (T : List (Option α)) (th : θ) (v : Visit θ)
+    (h : (search cfg M veto T.length T th).visits.head? = some v) : v.th = th := by
+  have := search_threshold_trace cfg M veto T.length T th (liveCount_le_length T)
+  cases hv : (search cfg M veto T.length T th).visits with
+  | nil => simp [hv] at h
+  | cons v' vs =>
+    rw [hv] at this h
+    simp only [List.head?_cons, Option.some.injEq] at h
+    subst h
+    exact this.1
+
+/-! Non-vacuity: MT+ with a vetoed best match really moves the slot (5 → 7)
+and the step still hands back 5. -/
+private def K0 : Kernel Int Int Int Int :=
+  { choice := fun _ x w => some (-(x - w).natAbs), matchv := fun _ _ => 6,
+    update := fun _ w => w, newW := fun x => x }
+private def cfg0 : SearchCfg Int Int := scalarCfg .plus false (· + 1) (· - 1) 1000
+private def m0 : Module Int Int := ⟨5, { W := [0, 10], cnt := [1, 1], n := 2, labels := [0, 1] }⟩
+
+example : (stepFitP K0 cfg0 (fun c => c == 0) m0 1).2.2.2 = 7 := by decide
+example : (stepFitP K0 cfg0 (fun c => c == 0) m0 1).1.rho = 5 := by decide
+example : (stepFitP K0 cfg0 (fun c => c == 0) m0 1).2.2.1 = .newCategory := by decide
 
 end Art.C07
